@@ -2,7 +2,8 @@ import SgVerif.C08.Lemmas
 /-
 C08 — Mailbox communications are exactly-once, FIFO among accepted, and intact.  Property theorems.
 
-Every theorem is for ALL histories `h : List Ev` of kernel calls (isend / irecv / set_receiver / cancel / finish / clear;
+Every theorem is for ALL histories `h : List Ev` of kernel calls (isend / irecv / set_receiver / cancel / finish / clear /
+iprobe;
 any actors, payloads, sizes, match functions of the grammar, any length) on one mailbox; `run h` is the state of the
 `MailboxImpl` model after them; a comm object is named by the index of the call that created it, so a smaller id means
 "arrived earlier".  "Pending sends" = the sends in comm_queue_ or done_comm_queue_ (not yet given to a receiver).
@@ -187,6 +188,7 @@ theorem coherent_step {s : Mbox} (hc : Coherent s) (e : Ev) (hok : stepOk s e) :
   | clear =>
     simp only [step, clear]
     exact ⟨fun _ => rfl, fun _ c hcm => by cases hcm⟩
+  | iprobe f d => exact hc
 
 theorem coherent_foldl (h : List Ev) : ∀ s, Coherent s → histOk s h → Coherent (h.foldl step s) := by
   induction h with
@@ -300,7 +302,48 @@ theorem isend_consumes (h : List Ev) (a pl size : Nat) (f : Filter) (d : Option 
       · exact id_ne_of_split hs.q e1 (by rw [← e2]; exact hx)
       · exact fun he => hd r hrm x hx he.symm
 
+/-- **iprobe leaves the mailbox alone; `cancel()` / `clear()` of a queued comm never dereference a null `mbox_`.**
+In every reachable state (histories with any number of iprobe calls, hits or misses) every comm of comm_queue_ still has
+its back pointer, so `CommImpl::cancel()` (`mbox_->remove(this)`) on any object and `MailboxImpl::clear()` are safe, and
+an iprobe call changes neither deque. -/
+theorem iprobe_keeps_mbox (h : List Ev) : ∀ c ∈ (run h).queue, c.mboxSet = true := mboxOk_run h
+
+theorem cancel_never_crashes (h : List Ev) (id : Nat) : cancelCrashes (run h) id = false := by
+  unfold cancelCrashes
+  split
+  · rename_i c hf
+    rw [mboxOk_run h c (List.mem_of_find?_eq_some hf)]; simp
+  · rfl
+
+theorem clear_never_crashes (h : List Ev) : clearCrashes (run h) = false := by
+  unfold clearCrashes
+  rw [List.any_eq_false]
+  intro c hc
+  rw [mboxOk_run h c hc]; simp
+
+theorem iprobe_changes_nothing (h : List Ev) (f : Filter) (d : Option MData) :
+    (step (run h) (.iprobe f d)).queue = (run h).queue ∧ (step (run h) (.iprobe f d)).done = (run h).done ∧
+    (step (run h) (.iprobe f d)).others = (run h).others ∧ (step (run h) (.iprobe f d)).perm = (run h).perm :=
+  ⟨rfl, rfl, rfl, rfl⟩
+
+/-- **Regression (pre-fix code).**  Before `find_matching_comm` kept `mbox_` of a comm it does not remove (`runPre`: the
+same calls with `iprobeMarkPre`), a queued send hit by an iprobe made a later `cancel()` of it, or `clear()`, dereference
+null — reproduced on the library (segmentation fault), key `iprobe-resets-mbox-of-queued-comm` (fixed). -/
+theorem iprobe_prefix_regression :
+    cancelCrashes (runPre [.isend 1 100 8 .none none false, .iprobe .none none]) 0 = true ∧
+    clearCrashes (runPre [.isend 1 100 8 .none none false, .iprobe .none none]) = true ∧
+    cancelCrashes (run [.isend 1 100 8 .none none false, .iprobe .none none]) 0 = false := by decide
+
 /-! ### non-vacuity -/
+
+/-- `iprobe_keeps_mbox` / `cancel_never_crashes` speak about a non-empty queue after an iprobe hit: the probe finds
+payload 100, the send is still queued, and cancelling it removes it -/
+example :
+    let h := [Ev.isend 1 100 8 .none none false, Ev.iprobe .none none]
+    (iprobeRecv (run [Ev.isend 1 100 8 .none none false]) .none none).bind (·.payload) = some 100 ∧
+    (run h).queue.map (·.id) = [0] ∧ (run (h ++ [Ev.cancel 0])).queue = [] ∧
+    ((run (h ++ [Ev.cancel 0])).others.map (·.state)) = [.canceled] := by decide
+
 
 /-- selective receive: two queued sends with tags 1 and 2, a receive wanting an even tag takes the second one,
 skipping the older send its match function refuses; payload 200 and size 8 arrive intact after `finish` -/
